@@ -524,8 +524,9 @@ func (fl *flattener) rewriteFile(f *ast.File, fname string, src []byte) ([]byte,
 			fl.st.Skipped = append(fl.st.Skipped, site+": "+why)
 			return
 		}
-		// the types of its signature are written out at the call site (result temporaries, literal parameters)
-		if why := fl.signatureProblem(fd, call); why != "" {
+		// the types of its signature are written out at the call site: all of them for a literal (go form), the result
+		// types only for the statement forms (result temporaries; parameters are bound with :=)
+		if why := fl.signatureProblemOf(fd, call, form != "go"); why != "" {
 			fl.st.Skipped = append(fl.st.Skipped, site+": "+why)
 			return
 		}
@@ -1262,6 +1263,10 @@ var flattenFileContent = map[string][]byte{}
 
 // signatureProblem: the types of the helper's signature must be expressible, with the same meaning, at the call site.
 func (fl *flattener) signatureProblem(fd *ast.FuncDecl, call *ast.CallExpr) string {
+	return fl.signatureProblemOf(fd, call, false)
+}
+
+func (fl *flattener) signatureProblemOf(fd *ast.FuncDecl, call *ast.CallExpr, resultsOnly bool) string {
 	tmp := &ast.FuncDecl{Body: &ast.BlockStmt{}}
 	var list []ast.Stmt
 	add := func(fl2 *ast.FieldList) {
@@ -1272,8 +1277,10 @@ func (fl *flattener) signatureProblem(fd *ast.FuncDecl, call *ast.CallExpr) stri
 			list = append(list, &ast.ExprStmt{X: f.Type})
 		}
 	}
-	add(fd.Recv)
-	add(fd.Type.Params)
+	if !resultsOnly {
+		add(fd.Recv)
+		add(fd.Type.Params)
+	}
 	add(fd.Type.Results)
 	tmp.Body.List = list
 	return fl.captureProblem(tmp, call)
